@@ -6,7 +6,7 @@ use proptest::strategy::Strategy;
 use serde::{Deserialize, Serialize};
 use serde_json::json;
 
-pub const RULE: &str = "case = hash size in {0,1,2,3,16 MB} (thorough: also 64) and a list of 1-7 searches run one after the other on one PersistentState; each search = (non-terminal legal position with game history: walks from repository roots, forced-mate themes so that scores jump to mate at depth >= 5, heavy material, tiny trees) x (depth 1..D | movetime 1-40 ms | clock tuples incl. 0, one-sided clocks, increments and moves-to-go >= 1, optionally with a depth). The earlier searches are of related or unrelated positions. A 'long session' part runs 300 depth-1/2 searches on one state (crosses the 8-bit search counter). Oracle per search: the call returns (watchdog), does not panic (checked build: overflow, out-of-range index and debug assertions are panics), and the move is in the reference legal set. The same parts run again in the optimised 'fast' profile. Non-trivial = search with >= 1 earlier search on its tables, or depth >= 5, or a mate score reported; distinct by (fen, moves, limit, hash, index).";
+pub const RULE: &str = "case = hash size in {0,1,2,3,16 MB} (thorough: also 64) and a list of 1-7 searches run one after the other on one PersistentState; each search = (non-terminal legal position with game history: walks from repository roots, forced-mate themes so that scores jump to mate at depth >= 5, heavy material, tiny trees) x (depth 1..D | movetime 1-40 ms | clock tuples incl. 0, one-sided clocks, increments and moves-to-go >= 1, optionally with a depth). The earlier searches are of related or unrelated positions. A 'long session' part runs 300 depth-1/2 searches on one state (crosses the 8-bit search counter). Oracle per search: the call returns (watchdog), does not panic (checked build: overflow, out-of-range index and debug assertions are panics), and the move is in the reference legal set. The same parts run again in the optimised 'fast' profile, and the same kind of case goes through the shipped binary ('position ..', 'go ..': one legal bestmove each, no panic-hook output, exit status 0). Non-trivial = search with >= 1 earlier search on its tables, or depth >= 5, or a mate score reported; distinct by (fen, moves, limit, hash, index).";
 
 #[derive(Serialize, Deserialize, Clone, Debug)]
 pub enum Case {
@@ -142,6 +142,74 @@ fn run_list(hash_mb: usize, searches: &[SearchSpec], st: &mut Stats) -> Result<(
     Ok(())
 }
 
+/// The same kind of case through the shipped binary: exit status, panic-hook output, bestmove legality.
+fn run_list_binary(hash_mb: usize, searches: &[SearchSpec], st: &mut Stats) -> Result<(), Fail> {
+    use super::ucilib::Engine;
+    use std::time::Duration;
+    let ex = || json!({"Explicit": {"hash_mb": hash_mb, "searches": searches}});
+    let mut e = Engine::spawn(&[]).map_err(|x| Fail::new("binary:io", x))?;
+    let fail = |e: &Engine, sig: &str, what: String| -> Fail {
+        let tail: Vec<String> = e.transcript.iter().rev().take(8).rev().cloned().collect();
+        Fail::new(sig, format!("{what}; last lines: {tail:?}")).explicit(ex())
+    };
+    e.send(&format!("setoption name Hash value {hash_mb}")).map_err(|x| fail(&e, "binary:engine_died", x))?;
+    for (i, spec) in searches.iter().enumerate() {
+        let Some((pos, _)) = build(spec) else { continue };
+        if pos.legal_moves().is_empty() {
+            continue;
+        }
+        st.eval();
+        let pos_cmd = if spec.moves.is_empty() { format!("position fen {}", spec.fen) } else { format!("position fen {} moves {}", spec.fen, spec.moves.join(" ")) };
+        let go = match &spec.limit {
+            Limit::Depth(d) => format!("go depth {d}"),
+            Limit::MoveTime(t) => format!("go movetime {t}"),
+            Limit::Clocks { wtime, btime, winc, binc, movestogo, depth } => {
+                let mut g = "go".to_string();
+                for (k, v) in [("wtime", wtime), ("btime", btime), ("winc", winc), ("binc", binc), ("movestogo", movestogo)] {
+                    if let Some(v) = v {
+                        g.push_str(&format!(" {k} {v}"));
+                    }
+                }
+                if let Some(d) = depth {
+                    g.push_str(&format!(" depth {d}"));
+                }
+                g
+            }
+        };
+        e.send(&pos_cmd).map_err(|x| fail(&e, "binary:engine_died", x))?;
+        e.send(&go).map_err(|x| fail(&e, "binary:engine_died", x))?;
+        loop {
+            match e.read_line(Duration::from_secs(120)) {
+                Ok(Some(l)) => {
+                    if let Some(rest) = l.strip_prefix("bestmove ") {
+                        let mv = rest.split_whitespace().next().unwrap_or("");
+                        if !pos.legal_moves().iter().any(|m| m.uci() == mv) {
+                            return Err(fail(&e, "binary:bestmove_illegal", format!("search #{i}: '{l}' is not legal in {}", pos.to_fen())));
+                        }
+                        break;
+                    } else if l.contains("panic") {
+                        return Err(fail(&e, "binary:panic", format!("search #{i} ({go}) at {}: {l}", pos.to_fen())));
+                    }
+                }
+                Ok(None) => return Err(fail(&e, "binary:engine_died", format!("output ended during search #{i} ({go}) at {}", pos.to_fen()))),
+                Err(x) => return Err(fail(&e, "binary:no_bestmove", format!("search #{i} ({go}) at {}: {x}", pos.to_fen()))),
+            }
+        }
+        if i > 0 || matches!(spec.limit, Limit::Depth(d) if d >= 5) {
+            st.nontrivial(&(spec.fen.clone(), spec.moves.clone(), format!("{:?}", spec.limit), hash_mb, i));
+            if st.want_nontrivial_sample() {
+                st.nontrivial_sample(json!({"hash_mb": hash_mb, "index": i, "position": pos_cmd, "go": go}));
+            }
+        }
+    }
+    e.send("quit").map_err(|x| fail(&e, "binary:engine_died", x))?;
+    match e.wait_exit(Duration::from_secs(20)) {
+        Some(0) => Ok(()),
+        Some(c) => Err(fail(&e, "binary:exit_status", format!("exit status {c}"))),
+        None => Err(fail(&e, "binary:no_exit", "still alive 20 s after quit".into())),
+    }
+}
+
 #[derive(Serialize, Deserialize, Clone, Debug)]
 pub struct Session {
     tape: Vec<u16>,
@@ -212,6 +280,20 @@ pub fn run(run: &mut Run) -> &'static str {
         },
         Case::Explicit { hash_mb, searches } => run_list(*hash_mb, searches, st),
     });
+    if profile_name() == "checked" && super::ucilib::engine_available() {
+        let cases = tier.pick(200, 4_000);
+        let strat = tape(16..160).prop_map(Case::Tape);
+        run.proptest_part("binary", RULE, strat, cases, move |c: &Case, st: &mut Stats| match c {
+            Case::Tape(t) => match build_case(t, tier, max_depth.min(6)) {
+                Some((h, s)) => run_list_binary(h, &s, st),
+                None => {
+                    st.discard();
+                    Ok(())
+                }
+            },
+            Case::Explicit { hash_mb, searches } => run_list_binary(*hash_mb, searches, st),
+        });
+    }
     let sessions = tier.pick(32, 320);
     let strat = tape(24..60).prop_map(|tape| Session { tape });
     run.proptest_part("long_session", RULE, strat, sessions, long_session);
